@@ -84,35 +84,6 @@ Proof.
     destruct (feq0 z) eqn:E; [|reflexivity]. apply (feq0_spec z Hfz) in E. contradiction.
 Qed.
 
-(* ---- rdpe_Norm ---------------------------------------------------------------------- *)
-Lemma norm_exact : forall (m : b64) (e : Z),
-  is_finite m = true -> in_long (e + snd (ffrexp m)) ->
-  normalised (rdpe_norm (Rdpe m e)) /\ rval (rdpe_norm (Rdpe m e)) = rval (Rdpe m e).
-Proof.
-  intros m e Hm Hl. unfold rdpe_norm. simpl mnt; simpl esp.
-  pose proof (ffrexp_spec m Hm) as H. destruct (ffrexp m) as [z i]. simpl in Hl.
-  destruct H as [Hz [Hv [[H0 [Hz0 [Hi Hq]]]|[Hn [Hb [Hi Hq]]]]]]; rewrite Hq.
-  - split. split; [assumption|]. left; split; [assumption|reflexivity].
-    unfold rval; simpl. rewrite Hz0, H0. ring.
-  - rewrite (wrap64_id _ Hl). split. split; [assumption|]. right; assumption.
-    unfold rval; simpl. rewrite Hv, bpow_plus. ring.
-Qed.
-
-(* mantissa of the normalised result: same sign as the input mantissa *)
-Lemma norm_mnt_sign : forall (m : b64) (e : Z), is_finite m = true ->
-  is_finite (mnt (rdpe_norm (Rdpe m e))) = true /\
-  ((0 < B2R (mnt (rdpe_norm (Rdpe m e))))%R <-> (0 < B2R m)%R) /\
-  ((B2R (mnt (rdpe_norm (Rdpe m e))) < 0)%R <-> (B2R m < 0)%R).
-Proof.
-  intros m e Hm. unfold rdpe_norm. simpl mnt; simpl esp.
-  pose proof (ffrexp_spec m Hm) as H. destruct (ffrexp m) as [z i].
-  destruct H as [Hz [Hv _]].
-  assert (Hp := bpow_gt_0 radix2 i).
-  assert (S1 : (0 < B2R z)%R <-> (0 < B2R m)%R) by (rewrite Hv; split; intro; nra).
-  assert (S2 : (B2R z < 0)%R <-> (B2R m < 0)%R) by (rewrite Hv; split; intro; nra).
-  destruct (feq0 z); simpl; repeat split; try assumption; tauto.
-Qed.
-
 (* ---- sign trichotomy with every boolean test decided --------------------------------- *)
 Lemma sign_bools : forall m : b64, is_finite m = true ->
   ((0 < B2R m)%R /\ fgt0 m = true /\ flt0 m = false /\ feq0 m = false /\ fle0 m = false /\ fge0 m = true) \/
@@ -143,6 +114,117 @@ Proof.
     + apply (T _ _ Q); lra.
     + apply (T _ _ LE); lra.
     + apply GE; lra.
+Qed.
+
+Lemma B2R_fhalf : B2R fhalf = (/2)%R.
+Proof. unfold fhalf, B2R, F2R; simpl. unfold Z.pow_pos; simpl. lra. Qed.
+Lemma B2R_fmhalf : B2R fmhalf = (-/2)%R.
+Proof. unfold fmhalf, B2R, F2R; simpl. unfold Z.pow_pos; simpl. lra. Qed.
+
+(* ---- rdpe_set_esp / rdpe_Norm ------------------------------------------------------------ *)
+(* in range: the exponent is the exact sum / difference, the mantissa is untouched *)
+Lemma set_esp_exact : forall (m : b64) (e0 a b : Z) (sub : bool),
+  feq0 m = false -> in_long (if sub then a - b else a + b) ->
+  rdpe_set_esp (Rdpe m e0) a b sub = Rdpe m (if sub then a - b else a + b).
+Proof.
+  intros m e0 a b sub Hm [H1 H2]. unfold rdpe_set_esp. simpl mnt. rewrite Hm.
+  destruct sub.
+  - assert (E1 : (b <? 0) && (LONG_MAX + b <? a) = false) by (unfold LONG_MAX in *; lia).
+    assert (E2 : (0 <? b) && (a <? LONG_MIN + b) = false) by (unfold LONG_MIN in *; lia).
+    rewrite E1, E2. reflexivity.
+  - assert (E1 : (0 <? b) && (LONG_MAX - b <? a) = false) by (unfold LONG_MAX in *; lia).
+    assert (E2 : (b <? 0) && (a <? LONG_MIN - b) = false) by (unfold LONG_MIN in *; lia).
+    rewrite E1, E2. reflexivity.
+Qed.
+
+(* the mantissa after rdpe_set_esp: finite, same sign (no hypothesis on the exponents) *)
+Lemma set_esp_sign : forall (m : b64) (e0 a b : Z) (sub : bool),
+  is_finite m = true -> B2R m <> 0%R ->
+  let r := rdpe_set_esp (Rdpe m e0) a b sub in
+  is_finite (mnt r) = true /\
+  ((0 < B2R (mnt r))%R <-> (0 < B2R m)%R) /\ ((B2R (mnt r) < 0)%R <-> (B2R m < 0)%R) /\
+  (Rabs (B2R (mnt r)) = Rabs (B2R m) \/ Rabs (B2R (mnt r)) = (/2)%R).
+Proof.
+  intros m e0 a b sub Fm Nm r. unfold r, rdpe_set_esp. change (mnt (Rdpe m e0)) with m.
+  destruct (feq0 m) eqn:Q. { apply (feq0_spec m Fm) in Q. contradiction. }
+  match goal with |- context [if ?c then Rdpe _ _ else Rdpe _ _] => destruct c end; cbn [mnt].
+  - destruct (sign_bools m Fm) as [[S [_ [L _]]]|[[S [_ [L _]]]|[S _]]]; try contradiction; rewrite L.
+    + rewrite B2R_fhalf. split; [reflexivity|]. split; [split; intro; lra|]. split; [split; intro; lra|].
+      right. rewrite Rabs_pos_eq; lra.
+    + rewrite B2R_fmhalf. split; [reflexivity|]. split; [split; intro; lra|]. split; [split; intro; lra|].
+      right. rewrite Rabs_left; lra.
+  - split; [assumption|]. split; [tauto|]. split; [tauto|]. left; reflexivity.
+Qed.
+
+(* saturation: with operands in the range of long the exponent never wraps; out of range the result is
+   +-1/2 (sign kept) at LONG_MAX (overflow) or LONG_MIN (underflow), in range it is exact *)
+Lemma set_esp_saturates : forall (m : b64) (e0 a b : Z) (sub : bool),
+  is_finite m = true -> B2R m <> 0%R -> in_long a -> in_long b ->
+  let s := if sub then a - b else a + b in
+  let r := rdpe_set_esp (Rdpe m e0) a b sub in
+  in_long (esp r) /\
+  (in_long s -> r = Rdpe m s) /\
+  (LONG_MAX < s -> r = Rdpe (if flt0 m then fmhalf else fhalf) LONG_MAX) /\
+  (s < LONG_MIN -> r = Rdpe (if flt0 m then fmhalf else fhalf) LONG_MIN).
+Proof.
+  intros m e0 a b sub Fm Nm [A1 A2] [B1 B2] s r.
+  assert (Q : feq0 m = false).
+  { destruct (feq0 m) eqn:E; [|reflexivity]. apply (feq0_spec m Fm) in E. contradiction. }
+  assert (Hin : in_long s -> r = Rdpe m s) by (intro Hs; apply set_esp_exact; assumption).
+  assert (Hov : LONG_MAX < s -> r = Rdpe (if flt0 m then fmhalf else fhalf) LONG_MAX).
+  { intro H. unfold r, rdpe_set_esp. simpl mnt. rewrite Q. unfold s in H. destruct sub.
+    + assert (E1 : (b <? 0) && (LONG_MAX + b <? a) = true) by (unfold LONG_MAX, LONG_MIN in *; lia).
+      rewrite E1. reflexivity.
+    + assert (E1 : (0 <? b) && (LONG_MAX - b <? a) = true) by (unfold LONG_MAX, LONG_MIN in *; lia).
+      rewrite E1. reflexivity. }
+  assert (Hun : s < LONG_MIN -> r = Rdpe (if flt0 m then fmhalf else fhalf) LONG_MIN).
+  { intro H. unfold r, rdpe_set_esp. simpl mnt. rewrite Q. unfold s in H. destruct sub.
+    * assert (E1 : (b <? 0) && (LONG_MAX + b <? a) = false) by (unfold LONG_MAX, LONG_MIN in *; lia).
+      assert (E2 : (0 <? b) && (a <? LONG_MIN + b) = true) by (unfold LONG_MAX, LONG_MIN in *; lia).
+      rewrite E1, E2. reflexivity.
+    * assert (E1 : (0 <? b) && (LONG_MAX - b <? a) = false) by (unfold LONG_MAX, LONG_MIN in *; lia).
+      assert (E2 : (b <? 0) && (a <? LONG_MIN - b) = true) by (unfold LONG_MAX, LONG_MIN in *; lia).
+      rewrite E1, E2. reflexivity. }
+  repeat split; try assumption.
+  - destruct (Z_lt_le_dec LONG_MAX s) as [H|H]; [rewrite (Hov H); simpl; unfold LONG_MAX, LONG_MIN; lia|].
+    destruct (Z_lt_le_dec s LONG_MIN) as [H'|H']; [rewrite (Hun H'); simpl; unfold LONG_MAX, LONG_MIN; lia|].
+    rewrite (Hin (conj H' H)). simpl. exact H'.
+  - destruct (Z_lt_le_dec LONG_MAX s) as [H|H]; [rewrite (Hov H); simpl; unfold LONG_MAX, LONG_MIN; lia|].
+    destruct (Z_lt_le_dec s LONG_MIN) as [H'|H']; [rewrite (Hun H'); simpl; unfold LONG_MAX, LONG_MIN; lia|].
+    rewrite (Hin (conj H' H)). simpl. exact H.
+Qed.
+
+Lemma norm_exact : forall (m : b64) (e : Z),
+  is_finite m = true -> in_long (e + snd (ffrexp m)) ->
+  normalised (rdpe_norm (Rdpe m e)) /\ rval (rdpe_norm (Rdpe m e)) = rval (Rdpe m e).
+Proof.
+  intros m e Hm Hl. unfold rdpe_norm. simpl mnt; simpl esp.
+  pose proof (ffrexp_spec m Hm) as H. destruct (ffrexp m) as [z i]. simpl in Hl.
+  destruct H as [Hz [Hv [[H0 [Hz0 [Hi Hq]]]|[Hn [Hb [Hi Hq]]]]]].
+  - unfold rdpe_set_esp. simpl mnt. rewrite Hq.
+    split. split; [assumption|]. left; split; [assumption|reflexivity].
+    unfold rval; simpl. rewrite Hz0, H0. ring.
+  - rewrite (set_esp_exact z e e i false Hq Hl). split. split; [assumption|]. right; assumption.
+    unfold rval; simpl. rewrite Hv, bpow_plus. ring.
+Qed.
+
+(* mantissa of the normalised result: finite, same sign as the input mantissa (also when saturating) *)
+Lemma norm_mnt_sign : forall (m : b64) (e : Z), is_finite m = true ->
+  is_finite (mnt (rdpe_norm (Rdpe m e))) = true /\
+  ((0 < B2R (mnt (rdpe_norm (Rdpe m e))))%R <-> (0 < B2R m)%R) /\
+  ((B2R (mnt (rdpe_norm (Rdpe m e))) < 0)%R <-> (B2R m < 0)%R).
+Proof.
+  intros m e Hm. unfold rdpe_norm. simpl mnt; simpl esp.
+  pose proof (ffrexp_spec m Hm) as H. destruct (ffrexp m) as [z i].
+  destruct H as [Hz [Hv Hc]].
+  assert (Hp := bpow_gt_0 radix2 i).
+  assert (S1 : (0 < B2R z)%R <-> (0 < B2R m)%R) by (rewrite Hv; split; intro; nra).
+  assert (S2 : (B2R z < 0)%R <-> (B2R m < 0)%R) by (rewrite Hv; split; intro; nra).
+  destruct Hc as [[H0 [Hz0 [Hi Hq]]]|[Hn [Hb [Hi Hq]]]].
+  - unfold rdpe_set_esp. simpl mnt. rewrite Hq. simpl mnt. repeat split; try assumption; tauto.
+  - assert (Nz : B2R z <> 0%R) by (intro K; rewrite K, Rabs_R0 in Hb; lra).
+    destruct (set_esp_sign z e e i false Hz Nz) as [F [P [N _]]].
+    repeat split; try assumption; tauto.
 Qed.
 
 (* ---- magnitude of normalised values ---------------------------------------------------- *)
@@ -491,10 +573,6 @@ Lemma cmp_unfixed_refuted :
 Proof. vm_compute. split; reflexivity. Qed.
 
 (* ---- concrete normalised values (non-vacuity) ------------------------------------------------ *)
-Lemma B2R_fhalf : B2R fhalf = (/2)%R.
-Proof. unfold fhalf, B2R, F2R; simpl. unfold Z.pow_pos; simpl. lra. Qed.
-Lemma B2R_fmhalf : B2R fmhalf = (-/2)%R.
-Proof. unfold fmhalf, B2R, F2R; simpl. unfold Z.pow_pos; simpl. lra. Qed.
 Lemma normalised_half : forall e, normalised (Rdpe fhalf e).
 Proof. intro e. split. reflexivity. right. simpl mnt. rewrite B2R_fhalf, Rabs_pos_eq; lra. Qed.
 Lemma normalised_mhalf : forall e, normalised (Rdpe fmhalf e).
